@@ -223,3 +223,18 @@ t1:
 t2:
   ret i32 %a
 }
+
+define void @repeated_targets(i8* %addr, i32 %a) {
+entry:
+  switch i32 %a, label %c [
+    i32 0, label %d
+    i32 1, label %c
+    i32 2, label %d
+  ]
+c:
+  indirectbr i8* %addr, [label %c, label %d, label %c]
+d:
+  br i1 undef, label %e, label %e
+e:
+  ret void
+}
